@@ -230,6 +230,7 @@ class Check(PropertyCheck):
     id = 'C20'
     lean_targets = ['RegionsVerif.Props.C20']
     namespaces = ['RegionsVerif.Props.C20']
+    parallel = True
     rule = ('x/y shape pairs over dims {0,1,2,3} up to rank 3 (scalars as Python numbers / numpy scalars / 0-d arrays, '
             '0-length, 1-D, N-D, mixed ranks; broadcastable and not) x int/float dtypes with dyadic values; '
             'per coordinate: len, iteration, xy, copy; index expressions = tuples of ints (negative, out of range), '
@@ -257,6 +258,10 @@ class Check(PropertyCheck):
         'numpy broadcasting/indexing rules themselves and wcslib invertibility are assumed and only validated dynamically',
         'float rounding of rotate/separation (model is exact over a field); validated within tolerance',
         'dtype preservation (int stays int under construction, indexing, + and -) is checked by the oracle only',
+        'an index expression never reads outside the source array: proved for broadcasting (bcast_in_range) and for the '
+        'result SIZE of every index expression (plan_size); for the positions of general index expressions validated only '
+        '(exact element values against real numpy on every generated key)',
+        '__eq__ (allclose on the stacked arrays) is modelled and compared with the real result but is not a clause of C20',
     ]
 
     # ================================================================ generation
@@ -385,6 +390,32 @@ class Check(PropertyCheck):
             key = key + extra if not with_ell or rng.random() < 0.5 else extra + key
         return key
 
+    def _key_error_order(self, rng, shape):
+        """several faults in one key (numpy's order of checks decides which exception comes out)."""
+        key = []
+        for n in shape:
+            r = rng.random()
+            if r < 0.25:
+                key.append({'t': 'int', 'v': rng.choice([n, -n - 1, n + 2, rng.randint(-n, n - 1) if n else 0])})
+            elif r < 0.45:
+                key.append({'t': 'slice', 'a': None, 'b': None, 'c': rng.choice([0, 0, None, -1])})
+            elif r < 0.6:
+                key.append({'t': 'ia', 'shape': [0], 'data': [], 'form': 'ndarray'})
+            elif r < 0.75:
+                k = rng.randint(1, 3)
+                key.append({'t': 'ia', 'shape': [k], 'data': [rng.choice([0, n, -n - 1, n - 1 if n else 0]) for _ in range(k)],
+                            'form': rng.choice(['ndarray', 'list'])})
+            elif r < 0.9 and n > 0:
+                m = n if rng.random() < 0.7 else n + 1
+                key.append({'t': 'ba', 'shape': [m], 'data': [rng.random() < rng.choice([0.0, 0.5]) for _ in range(m)]})
+            else:
+                key.append({'t': 'slice', 'a': None, 'b': None, 'c': None})
+        if rng.random() < 0.2:
+            key.insert(rng.randint(0, len(key)), {'t': 'ell'})
+        if rng.random() < 0.1:
+            key.append({'t': 'int', 'v': 0})
+        return key
+
     def _angle(self, rng, unit=None):
         """any sign, magnitude up to 1500 turns, any angular unit, Angle or Quantity."""
         unit = unit or rng.choice(UNITS)
@@ -445,6 +476,10 @@ class Check(PropertyCheck):
             allow_bad = rng.random() < 0.35
             key = self._key(rng, s, allow_bad) if s else self._key(rng, [2], allow_bad)
             cases.append({'kind': 'getitem', 'p': p, 'key': key, 'bare': rng.random() < 0.5})
+        for _ in range(400 if quick else 10000):
+            s = [rng.choice([1, 2, 3, 3]) for _ in range(rng.randint(1, 3))]
+            p = self._coord_of_shape(rng, s)
+            cases.append({'kind': 'getitem', 'p': p, 'key': self._key_error_order(rng, s), 'bare': False})
         # ---- arithmetic
         for _ in range(1200 if quick else 25000):
             r = rng.random()
@@ -776,10 +811,6 @@ class Check(PropertyCheck):
             ex = math.sqrt(Fraction(q))
             if abs(float(Fraction(d)) - ex) > 1e-12 * max(1.0, ex):
                 return False
-        return True
-
-    def _eq_margin_ok(self, case):
-        """is the allclose decision away from its boundary for every compared pair? (else: boundary, excepted)"""
         return True
 
     def equal(self, case, real, model):
